@@ -380,6 +380,14 @@ func prepareCall(fr *frame, call *ssa.CallCommon) (fn value, args []value) {
 		if recv.t == nil {
 			panic(rtPanic("invalid memory address or nil pointer dereference (method " + call.Method.Name() + " on nil interface)"))
 		}
+		if recv.t == envObjType.named {
+			sig := call.Method.Type().(*types.Signature)
+			fn = &builtinFn{name: "env." + call.Method.Name(), f: func(fr *frame, a []value) value { return envResults(sig) }}
+			for _, arg := range call.Args {
+				args = append(args, fr.get(arg))
+			}
+			return
+		}
 		if et, ok := engTypes[recv.t]; ok {
 			m := et.methods[call.Method.Name()]
 			if m == nil {
